@@ -257,12 +257,46 @@ def functions_encoded(rec):
         props = [x for x in d if isinstance(x, dict) and "properties" in x][0]["properties"]
     except Exception:
         return []
+    def strip_generics(x):
+        prev = None
+        x = x.replace("->", "")
+        while prev != x:
+            prev = x
+            x = re.sub(r"<[^<>]*>", "", x)
+        return re.sub(r"::+", "::", x).strip(": ")
+
+    def short(fn):
+        # monomorphic name -> generic name: `<Type<..> as Trait<..>>::method::<..>::{closure#0}` -> `Type::method`
+        fn = re.sub(r"::\{closure#\d+\}", "", fn)
+        if fn.startswith("<"):
+            depth = 0
+            for i, ch in enumerate(fn):
+                if ch == "<":
+                    depth += 1
+                elif ch == ">" and fn[i - 1] != "-":
+                    depth -= 1
+                    if depth == 0:
+                        inner, rest = fn[1:i], fn[i + 1:]
+                        # top-level " as "
+                        d = 0
+                        ty = inner
+                        for j in range(len(inner)):
+                            if inner[j] == "<":
+                                d += 1
+                            elif inner[j] == ">":
+                                d -= 1
+                            elif d == 0 and inner.startswith(" as ", j):
+                                ty = inner[:j]
+                                break
+                        return (strip_generics(ty) + "::" + strip_generics(rest)).replace("::::", "::")
+        return strip_generics(fn) or "?"
+
     fns = set()
     for p in props:
         sl = p.get("sourceLocation", {})
         f = sl.get("file", "")
         if (REPO + "/") in f:
-            fns.add("%s::%s" % (f.split(REPO + "/")[-1], sl.get("function", "?")))
+            fns.add("%s::%s" % (f.split(REPO + "/")[-1], short(sl.get("function", "?"))))
     return sorted(fns)
 
 
@@ -547,7 +581,7 @@ def run_property(prop, tier, seed, only, jobs_override):
                     why = "no verdict (timeout, out of memory or CBMC error): exit_status=%s" % r["exit_status"]
                 inconclusive.append("%s: %s" % (h["name"], why))
     wall = time.time() - t_start
-    write_evidence(prop, tier, seed, cfg, all_recs, cmds, wall, violations, known_lines, inconclusive, refval)
+    write_evidence(prop, tier, seed, cfg, all_recs, cmds, wall, violations, known_lines, inconclusive, refval, partial=bool(only))
     for l in known_lines:
         log(l)
     if violations:
@@ -618,8 +652,10 @@ def handle_failure(prop, h, r, target_dir, extra, env, mem_kb, timeout_s, violat
     inconclusive.append("%s: counterexample for %r did not reproduce natively (harness/stub suspect)" % (h["name"], check))
 
 
-def write_evidence(prop, tier, seed, cfg, recs, cmds, wall, violations, known_lines, inconclusive, refval=None):
-    os.makedirs(os.path.join(OUT, "evidence"), exist_ok=True)
+def write_evidence(prop, tier, seed, cfg, recs, cmds, wall, violations, known_lines, inconclusive, refval=None, partial=False):
+    # a partial (--only) development run never overwrites the property's evidence file
+    out_dir = os.path.join(BUILD if partial else OUT, "evidence")
+    os.makedirs(out_dir, exist_ok=True)
     decided = [r for r in recs if r["status"] in ("pass", "fail")]
     nontrivial = [r for r in recs if r["status"] == "pass" and r["tier"] in ("Q", "T") and (r["covers_sat"] or 0) >= 1 and not r["covers_unsat"]]
     obligations = sum((r["total"] or 0) for r in recs if r["tier"] in ("Q", "T"))
@@ -668,4 +704,4 @@ def write_evidence(prop, tier, seed, cfg, recs, cmds, wall, violations, known_li
         wall_s=round(wall, 1),
         violations=len(violations),
     )
-    json.dump(ev, open(os.path.join(OUT, "evidence", "%s.json" % prop), "w"), indent=1)
+    json.dump(ev, open(os.path.join(out_dir, "%s.json" % prop), "w"), indent=1)
